@@ -193,6 +193,18 @@ func main() {
 	}
 	os.RemoveAll(qdir)
 	solveAll(all, qdir, timeout, cross, 12)
+	// Obligations nobody decided within the budget are tried once more, fewer at a time and with three
+	// times the budget: a loaded machine must not turn into a false alarm (a real failure stays undecided
+	// or sat and only costs the extra time).
+	var retry []*Obligation
+	for _, ob := range all {
+		if ob.Status == "unknown" && !ob.Cover {
+			retry = append(retry, ob)
+		}
+	}
+	if len(retry) > 0 {
+		solveAll(retry, qdir, timeout*3, cross, 4)
+	}
 	if *dump {
 		for _, ob := range all {
 			fmt.Printf("%-12s %-8s %6dms %s  [%s] %s\n", ob.Status, ob.Solver, ob.Ms, ob.Name, ob.Pos, ob.Src)
